@@ -187,6 +187,8 @@ def _c_fresh_vec_is_empty(it, st, name, args, t):
     return None
 
 
+PURE = re.compile(r'(^unimock::private::(as_str_ref|as_slice|as_ref)$|^private::(as_str_ref|as_slice|as_ref)$|PartialEq( for \w+)?>?::(eq|ne)$|PartialOrd( for \w+)?>?::(lt|le|gt|ge|partial_cmp)$|'
+                  r'<impl \[T\]>::(len|is_empty)$|^core::str::<impl str>::(len|is_empty)$)')
 DIVERGE = ('__diverge__',)
 
 
@@ -653,7 +655,16 @@ class Interp:
                     st2._outcome = outcome
                     yield st2, None
             return
-        # opaque call
+        # opaque call; re-evaluating a pure function on identical arguments yields the identical (symbolic) result
+        if PURE.search(name):
+            key = ('pure', name, sargs)
+            if key in st.heap:
+                yield st, st.heap[key]
+                return
+            res = ('call', name, sargs, site)
+            st.heap[key] = res
+            yield st, res
+            return
         res = ('call', name, sargs, site)
         for a in args:
             if a[0] == 'ref' and a[2] and a[1][0][0] == 'local':
